@@ -46,7 +46,7 @@ CLAIMED = {
         "must-pass-through and who-may-call rules on configure/start/setup/stop, field-coverage (effects) of configure, select/receive forms of the watcher loop, decoded condition sets of the default-cache functions",
         "Decides for all paths: one watcher at a time (NewWatcher only in setup, stop before setup/start, stop closes a non-nil watcher); one goroutine per start, started only from configure after setup under the auto-refresh flag and bound to the then-current watcher, this cache's mutex and refresh; "
         "the goroutine returns on a closed channel and on a nil watcher; a nil watcher forces a rescan per query; configure applies all options first, then reassigns every field options cannot set (dirErrors directly, index and errors via refresh) and always ends with a refresh; NewCache and Configure both funnel into configure; "
-        "the default cache gets its options exactly once.",
+        "the default cache gets its options exactly once; a scan that met EMFILE/ENFILE leaves c.rescan set (assigned on every path of refresh from a flag set exactly under those errno tests) and refreshIfRequired scans again when it is set (C20.7, after defect D17).",
         TRUST + "fsnotify.Close closing both channels and releasing descriptors is assumed. Does not decide behavioural equivalence over option histories nor actual descriptor/goroutine counts.",
         "DESIGN.md §4 C20"),
     "C10": (
@@ -104,7 +104,7 @@ CLAIMED = {
         "DESIGN.md §4 C01"),
     "C13": (
         "return-shape classification + guard-set decoding + error-flow rules over the scan machinery on go/ssa",
-        "Decides for all paths that a per-path failure cannot end the scan of later directories (walk callback returns only nil/SkipDir/scan-function verdict; non-ENOENT stat failures and walk errors are handed to the scan function), "
+        "Decides for all paths that a per-path failure cannot end the scan of later directories (walk callback returns only nil/SkipDir/scan-function verdict; SkipDir only for what Walk itself regards as a directory; non-ENOENT stat failures, walk errors and a scanned directory that cannot be read are handed to the scan function), "
         "that scanSpecDirs stops early only on a non-nil non-ErrStopScan result, that refresh's callback always returns nil after recording the failure under the file's path, ReadSpec fails with (nil, error), "
         "error and index maps are made anew per refresh (or emptied before refilling), and Refresh/refresh/refreshIfRequired return the join of the current per-file error lists.",
         TRUST + "Does not decide fault semantics of the file system or filepath.Walk internals, nor which inputs fail to load.",
@@ -187,12 +187,15 @@ def main():
             "path": "/verif/checker",
             "serves_properties": sorted(CLAIMED.keys()),
             "kind_free_text": "repository-specific static analyser (Go, golang.org/x/tools v0.29.0: go/packages + go/ssa): CFG path queries, "
-                              "access-path origin and write-effect analysis, must-hold locksets, table/field agreement rules. Loads /repo's working tree on every run; executes nothing from it.",
+                              "access-path origin and write-effect analysis, must-hold locksets, table/field agreement rules; before the rules run the program is normalised on go/ssa "
+                              "(unknown helpers and closures expanded into their callers, jump threading, rename overlay, forwarding of read-only captured variables) so that behaviour-preserving refactorings leave the rules' view unchanged. "
+                              "Loads /repo's working tree on every run; executes nothing from it.",
         }],
         "checks": checks,
         "notes": "All claims are at level 'other': each check decides structural necessary conditions of its property for all paths/call sites of the loaded program, "
                  "not the quantified behaviour. Violations are keyed by rule+construct; KNOWN_FINDINGS.txt lists repaired (fixed:) and open defects. "
-                 "thorough = quick + additional GOOS build configurations + replay of the mutant and benign corpora for that property (self-test of the rules, recorded in the evidence).",
+                 "thorough = quick + additional GOOS build configurations + replay of the mutant and benign corpora and of the independently written seeded changes for that property (self-test of the rules, recorded in the evidence). "
+                 "Corpora: mutants/ (one-instance breaks incl. the reverts of all 17 fix: commits), benign/, seeded/ (120 property-breaking changes by sub-agents), refactors/ (161 behaviour-preserving refactorings by sub-agents; the 8 that still raise an alarm are documented as limits in DESIGN.md section 5).",
         "not_applicable": na,
     }
     with open(os.path.join(VERIF, "MANIFEST.json"), "w") as fh:
